@@ -92,6 +92,10 @@ func init() {
 	// vxPick(n int) int: concrete choice (forks)
 	vxAPI["vxPick"] = func(e *Exec, fn *ssa.Function, args []Value) Value {
 		n := e.concInt(args[0])
+		if e.pr != nil {
+			k := e.procEvent(&Event{Kind: "choice", N: n, Site: e.siteName("pick")}, n)
+			return mkInt(64, uint64(k))
+		}
 		k := e.pick(n)
 		e.inputs = append(e.inputs, InputVal{Call: "vxPick", Vals: []uint64{uint64(k)}})
 		return mkInt(64, uint64(k))
